@@ -57,7 +57,8 @@ CLASSES = (['tr-m-minus1:' + a for a in ('surf-tr', 'trcl-num', 'fill-num',
               if k not in ('sph', 'ell')]
            + ['facet-on-plain', 'fill-array-short', 'fill-array-long',
               'fill-array-long-by-repeat', 'fill-array-short-by-repeat',
-              'imp-unequal', 'imp-short', 'lattice-arg-malformed']
+              'imp-unequal', 'imp-unequal-same-tokens', 'imp-short',
+              'lattice-arg-malformed']
            + [f'material-mixed-sign:{b}-{w}' for b in ('pos', 'neg')
               for w in ('first', 'mid', 'last')])
 _PER = {'quick': 3, 'thorough': 400}
@@ -322,12 +323,18 @@ def build_pair(case):
             blat.fill.array = blat.fill.array + [blat.fill.array[0]]
         return deck, bad, f'FILL array with {len(blat.fill.array)} entries ' \
             f'instead of {len(lat.fill.array)}'
-    if head in ('imp-unequal', 'imp-short'):
-        deck = c12.build(_Sub(case, 'data-np-two-cards' if head ==
-                              'imp-unequal' else 'data-n'))
+    if head in ('imp-unequal', 'imp-unequal-same-tokens', 'imp-short'):
+        deck = c12.build(_Sub(case, 'data-np-two-cards' if head !=
+                              'imp-short' else 'data-n'))
         bad = copy.deepcopy(deck)
         parts, toks = bad.imp_cards[-1]
-        if head == 'imp-unequal':
+        if head == 'imp-unequal-same-tokens':
+            # as many tokens as the other card, but one of them is a repeat:
+            # one value too many
+            toks = list(toks)
+            k = rng.randrange(1, len(toks) - 1)
+            toks[k] = '2r' if rng.random() < 0.5 else '2R'
+        elif head == 'imp-unequal':
             toks = list(toks)[:-1] if rng.random() < 0.5 else \
                 list(toks) + ['1']
         else:
